@@ -24,10 +24,15 @@ def t32(utc):
     return int(utc) - ITS_EPOCH
 
 
-def root_tbs(now, name="root-ca.test", chain=2, psids="all", dur=("years", 10)):
-    sp = ("all", None) if psids == "all" else ("explicit", [{"psid": p} for p in psids])
+def _groups(groups):
+    return [{"subjectPermissions": ("all", None) if ps == "all" else ("explicit", [{"psid": p} for p in ps]), "minChainLength": ch, "chainLengthRange": 0,
+             "eeType": (b"\x00", 1)} for ps, ch in groups]
+
+
+def root_tbs(now, name="root-ca.test", chain=2, psids="all", dur=("years", 10), groups=None):
+    """groups: [(psids | "all", minChainLength), ...] for issuers whose PSID groups have different remaining chain lengths."""
     return {"id": ("name", name), "cracaId": CRACA, "crlSeries": 0, "validityPeriod": {"start": t32(now) - 1000, "duration": dur},
-            "certIssuePermissions": [{"subjectPermissions": sp, "minChainLength": chain, "chainLengthRange": 0, "eeType": (b"\x00", 1)}],
+            "certIssuePermissions": _groups(groups if groups is not None else [(psids, chain)]),
             "verifyKeyIndicator": ("verificationKey", ("ecdsaNistP256", ("fill", None)))}
 
 
@@ -134,6 +139,21 @@ def issuer_allows(issuer_dict, psids) -> bool:
         return True
     allowed = {e["psid"] for p in perms if p["subjectPermissions"][0] == "explicit" for e in p["subjectPermissions"][1]}
     return all(p in allowed for p in psids)
+
+
+def issuing_budget(issuer_dict, psids) -> int:
+    """Remaining chain length the issuer has for ALL of the given PSIDs: min over the PSIDs of the best covering group
+    (-1 when some PSID is not covered at all)."""
+    perms = issuer_dict["toBeSigned"].get("certIssuePermissions", [])
+    worst = None
+    for p in psids:
+        best = -1
+        for g in perms:
+            sp = g["subjectPermissions"]
+            if sp[0] == "all" or (p != "all" and any(e["psid"] == p for e in sp[1])):
+                best = max(best, g["minChainLength"])
+        worst = best if worst is None else min(worst, best)
+    return -1 if worst is None else worst
 
 
 def chain_ok(cert_dict, store: dict, roots: dict, depth=0):
